@@ -386,15 +386,17 @@ def refequiv_stage(tier):
 
 
 def c_search(prop, tier):
+    # auxiliary stage in every search check: pumped haystacks compared with regexp directly (the property's own reference)
+    long_args = ["-long", "700" if tier == "quick" else "4300"]
     if prop == "C04":
         return run_search_family(prop, tier, prop, stages=iter_model_stages(tier), per_output=iter_trace_stage(prop),
-                                 budget_scale=0.6 if tier == "quick" else 1.0)
+                                 budget_scale=0.6 if tier == "quick" else 1.0, extra_args=long_args)
     if prop == "C10":
         return run_search_family(prop, tier, prop, stages=[object_stage(prop, tier)], budget_scale=0.6 if tier == "quick" else 1.0,
-                                 per_output=pike_stage(prop, tier, 1))
+                                 per_output=pike_stage(prop, tier, 1), extra_args=long_args)
     if prop in ("C02", "C03"):
-        return run_search_family(prop, tier, prop, stages=[refequiv_stage(tier)], per_output=pike_stage(prop, tier))
-    return run_search_family(prop, tier, prop)
+        return run_search_family(prop, tier, prop, stages=[refequiv_stage(tier)], per_output=pike_stage(prop, tier), extra_args=long_args)
+    return run_search_family(prop, tier, prop, extra_args=long_args)
 
 
 def c08(prop, tier):
